@@ -217,7 +217,7 @@ def spec_into_range():
 
 
 def _raw_inputs(ex, p):
-    ln = sym(ex, p, "O:arg1", (2,))
+    ln = sym(ex, p, "O:arg1", (S.POS["vec_len"],))
     cap = sym(ex, p, "O:arg1", ("$capacity",))
     return ln, cap
 
@@ -285,19 +285,19 @@ def spec_shrink(method):
 
 def spec_index_check():
     def on_return(ex, p):
-        ln = sym(ex, p, "O:arg1", (2,))
+        ln = sym(ex, p, "O:arg1", (S.POS["vec_len"],))
         return [("returns only for index < len", "(bvult %s %s)" % (p.cells[("L:_2", ())][1], ln))]
 
     def on_panic(ex, p):
-        ln = sym(ex, p, "O:arg1", (2,))
+        ln = sym(ex, p, "O:arg1", (S.POS["vec_len"],))
         return [("panics only for index >= len", "(bvuge %s %s)" % (p.cells[("L:_2", ())][1], ln))]
     return Spec("AnyVecRaw::index_check", "src/any_vec_raw.rs", "index_check", ["C01", "C13"], None, on_return, on_panic, "bounds test")
 
 
 def _heap_inputs(ex, p):
-    size = sym(ex, p, "O:arg1", (1,))
-    es = sym(ex, p, "O:arg1", (2, "size"))
-    al = sym(ex, p, "O:arg1", (2, "align"))
+    size = sym(ex, p, "O:arg1", (S.POS["heap_size"],))
+    es = sym(ex, p, "O:arg1", (S.POS["heap_layout"], "size"))
+    al = sym(ex, p, "O:arg1", (S.POS["heap_layout"], "align"))
     return size, es, al
 
 
@@ -342,10 +342,10 @@ def spec_heap_resize():
             osz, oal = e[2][1][1], e[2][2][1]
             obs.append(("dealloc only when shrinking to zero, with exactly the layout of the live block",
                         AND("(= %s %s)" % (new, bvconst(0)), "(= %s %s)" % (osz, old_bytes), "(= %s %s)" % (oal, al), "(not (= %s %s))" % (size, bvconst(0)))))
-        fin = ex.read_cell(p, "O:arg1", (1,), "usize")[1]
+        fin = ex.read_cell(p, "O:arg1", (S.POS["heap_size"],), "usize")[1]
         obs.append(("capacity field ends as new_size", "(= %s %s)" % (fin, new)))
         if deallocs:
-            ptr = ex.as_bv(ex.read_cell(p, "O:arg1", (0,), "usize"))[1]
+            ptr = ex.as_bv(ex.read_cell(p, "O:arg1", (S.POS["heap_ptr"],), "usize"))[1]
             obs.append(("after giving the block back the storage pointer is non-null and aligned for the element type (typed views of the empty vector are built from it)",
                         AND("(not (= %s %s))" % (ptr, bvconst(0)), "(= (bvand %s (bvsub %s %s)) %s)" % (ptr, al, bvconst(1), bvconst(0)))))
         return obs
@@ -359,9 +359,9 @@ def spec_heap_resize():
                 OR("(bvugt %s %s)" % (new_bytes_wide, lim), "true" if "handle_alloc_error" in str(p.outcome) or "unwrap_or_else" in str(p.outcome) else "false"))]
         # the chunk is dropped during unwinding (Drop = resize(0) -> dealloc with the layout computed from `size`):
         # a refused request must leave (pointer, size) describing the block that is still owned
-        fin = ex.as_bv(ex.read_cell(p, "O:arg1", (1,), "usize"))[1]
-        ptr0 = sym(ex, p, "O:arg1", (0,))
-        ptr = ex.as_bv(ex.read_cell(p, "O:arg1", (0,), "usize"))[1]
+        fin = ex.as_bv(ex.read_cell(p, "O:arg1", (S.POS["heap_size"],), "usize"))[1]
+        ptr0 = sym(ex, p, "O:arg1", (S.POS["heap_ptr"],))
+        ptr = ex.as_bv(ex.read_cell(p, "O:arg1", (S.POS["heap_ptr"],), "usize"))[1]
         if not (events(p, "alloc") or events(p, "realloc") or events(p, "dealloc")):
             obs.append(("a refused request leaves the recorded capacity and the storage pointer unchanged (the chunk is still dropped while unwinding)",
                         AND("(= %s %s)" % (fin, size), "(= %s %s)" % (ptr, ptr0))))
@@ -373,12 +373,12 @@ def spec_heap_from_raw_parts():
     def on_return(ex, p):
         h = ex.as_bv(p.cells[("L:_1", ())])[1]
         n = ex.as_bv(p.cells[("L:_3", ())])[1]
-        mem = ex.as_bv(ex.read_cell(p, "L:_0", (0,), "usize"))[1]
-        size = ex.as_bv(ex.read_cell(p, "L:_0", (1,), "usize"))[1]
-        al = ex.as_bv(ex.read_cell(p, "L:_0", (2, "align"), "usize"))[1]
+        mem = ex.as_bv(ex.read_cell(p, "L:_0", (S.POS["heap_ptr"],), "usize"))[1]
+        size = ex.as_bv(ex.read_cell(p, "L:_0", (S.POS["heap_size"],), "usize"))[1]
+        al = ex.as_bv(ex.read_cell(p, "L:_0", (S.POS["heap_layout"], "align"), "usize"))[1]
         al_in = ex.as_bv(ex.read_cell(p, "L:_2", ("align",), "usize"))[1]
         es_in = ex.as_bv(ex.read_cell(p, "L:_2", ("size",), "usize"))[1]
-        es = ex.as_bv(ex.read_cell(p, "L:_0", (2, "size"), "usize"))[1]
+        es = ex.as_bv(ex.read_cell(p, "L:_0", (S.POS["heap_layout"], "size"), "usize"))[1]
         return [("the rebuilt chunk records the capacity and element layout it was given", AND("(= %s %s)" % (size, n), "(= %s %s)" % (al, al_in), "(= %s %s)" % (es, es_in))),
                 ("the rebuilt chunk adopts the handle; only where nothing is allocated may it use another non-null pointer aligned for the element type",
                  OR("(= %s %s)" % (mem, h), AND(OR("(= %s %s)" % (n, bvconst(0)), "(= %s %s)" % (es_in, bvconst(0))), "(not (= %s %s))" % (mem, bvconst(0)), "(= (bvand %s (bvsub %s %s)) %s)" % (mem, al_in, bvconst(1), bvconst(0)))))]
@@ -420,11 +420,20 @@ def _elem_layout_invariant(root):
     return assume
 
 
+def stack_capacity_cell(ex, p):
+    """the capacity recorded in the StackMem returned by Stack::build: the struct's only integer field (named `size` today)"""
+    names = [pa[0][2:] for (r, pa) in p.cells if r == "L:_0" and len(pa) == 1 and isinstance(pa[0], str) and pa[0].startswith("n:") and p.cells[(r, pa)][0] == "bv"]
+    pick = [n for n in names if n in ("size", "capacity", "cap")] or names
+    if len(pick) != 1:
+        raise KeyError("capacity field of the returned StackMem not identifiable among %s" % names)
+    return ex.read_cell(p, "L:_0", ("n:" + pick[0],), "usize")[1]
+
+
 def spec_stack_build():
     def on_return(ex, p):
         es = sym(ex, p, "O:arg2", ("size",))
         p.decls.setdefault("cg_SIZE", "(_ BitVec 64)")
-        size = ex.read_cell(p, "L:_0", ("n:size",), "usize")[1]
+        size = stack_capacity_cell(ex, p)
         divs = [n for n in p.notes if n[0] == "div"]
         if not divs:
             # no division on this path: state floor(SIZE / size) directly (128-bit products; fine for finding a counterexample)
@@ -460,13 +469,13 @@ def spec_stackn_build():
 
 def spec_iter_len(method):
     def assume(ex, p):
-        idx = sym(ex, p, "O:arg1", (1,))
-        end = sym(ex, p, "O:arg1", (2,))
+        idx = sym(ex, p, "O:arg1", (S.POS["iter_index"],))
+        end = sym(ex, p, "O:arg1", (S.POS["iter_end"],))
         return [("cursor invariant index <= end", "(bvule %s %s)" % (idx, end))]
 
     def on_return(ex, p):
-        idx = sym(ex, p, "O:arg1", (1,))
-        end = sym(ex, p, "O:arg1", (2,))
+        idx = sym(ex, p, "O:arg1", (S.POS["iter_index"],))
+        end = sym(ex, p, "O:arg1", (S.POS["iter_end"],))
         if method == "len":
             r = p.cells[("L:_0", ())][1]
             return [("len() == end - index", "(= %s (bvsub %s %s))" % (r, end, idx))]
@@ -527,17 +536,17 @@ def spec_bytes(method):
 
 def spec_iter_step(method):
     def assume(ex, p):
-        idx = sym(ex, p, "O:arg1", (1,))
-        end = sym(ex, p, "O:arg1", (2,))
+        idx = sym(ex, p, "O:arg1", (S.POS["iter_index"],))
+        end = sym(ex, p, "O:arg1", (S.POS["iter_end"],))
         return [("cursor invariant index <= end", "(bvule %s %s)" % (idx, end))]
 
     def on_return(ex, p):
-        idx = sym(ex, p, "O:arg1", (1,))
-        end = sym(ex, p, "O:arg1", (2,))
+        idx = sym(ex, p, "O:arg1", (S.POS["iter_index"],))
+        end = sym(ex, p, "O:arg1", (S.POS["iter_end"],))
         d = ex.read_cell(p, "L:_0", ("discr",), "isize")[1]
         fetch = [e for e in p.events if e[0] == "element_ptr_at"]
-        idx2 = ex.read_cell(p, "O:arg1", (1,), "usize")[1]
-        end2 = ex.read_cell(p, "O:arg1", (2,), "usize")[1]
+        idx2 = ex.read_cell(p, "O:arg1", (S.POS["iter_index"],), "usize")[1]
+        end2 = ex.read_cell(p, "O:arg1", (S.POS["iter_end"],), "usize")[1]
         obs = [("None exactly when the cursors meet (fused)", "(= (= %s %s) (= %s %s))" % (d, bvconst(0), idx, end))]
         if fetch:
             at = ex.as_bv(fetch[0][2][1])[1]
@@ -557,7 +566,9 @@ def spec_iter_step(method):
 
 def spec_drain_drop():
     def inp(ex, p):
-        return dict(index=sym(ex, p, "O:arg1", (0, 1)), iend=sym(ex, p, "O:arg1", (0, 2)), start=sym(ex, p, "O:arg1", (1,)), end=sym(ex, p, "O:arg1", (2,)), olen=sym(ex, p, "O:arg1", (3,)))
+        P_ = S.POS
+        return dict(index=sym(ex, p, "O:arg1", (P_["drain_iter"], P_["iter_index"])), iend=sym(ex, p, "O:arg1", (P_["drain_iter"], P_["iter_end"])),
+                    start=sym(ex, p, "O:arg1", (P_["drain_start"],)), end=sym(ex, p, "O:arg1", (P_["drain_end"],)), olen=sym(ex, p, "O:arg1", (P_["drain_olen"],)))
 
     def assume(ex, p):
         i = inp(ex, p)
@@ -574,7 +585,7 @@ def spec_drain_drop():
             obs.append(("moves the tail [range end, original_len) down to the range start", AND("(= %s %s)" % (src, i["end"]), "(= %s %s)" % (dst, i["start"]), "(= %s (bvsub %s %s))" % (cnt, i["olen"], i["end"]))))
             obs.append(("the vector's len is not restored before the destructors and the move ran", "true" if drops[0][3] is None and moves[0][3] is None else "false"))
             obs.append(("destructors run before the tail is moved", "true" if p.events.index(drops[0]) < p.events.index(moves[0]) else "false"))
-        fin = ex.read_cell(p, "O:vecraw", (2,), "usize")[1]
+        fin = ex.read_cell(p, "O:vecraw", (S.POS["vec_len"],), "usize")[1]
         obs.append(("len ends as original_len - (end - start)", "(= %s (bvsub %s (bvsub %s %s)))" % (fin, i["olen"], i["end"], i["start"])))
         return obs
 
@@ -589,8 +600,8 @@ ES_MAX, N_MAX = 1 << 20, 1 << 40   # stated bound (as for the byte views): eleme
 
 def _vec_syms(ex, p, root):
     if root == "O:vecraw":
-        return sym(ex, p, "O:vecraw", ("$base",)), sym(ex, p, "O:vecraw", ("$layout", "size")), sym(ex, p, "O:vecraw", (2,))
-    return sym(ex, p, "O:arg1", (1, "$base")), sym(ex, p, "O:arg1", ("$layout", "size")), sym(ex, p, "O:arg1", (2,))
+        return sym(ex, p, "O:vecraw", ("$base",)), sym(ex, p, "O:vecraw", ("$layout", "size")), sym(ex, p, "O:vecraw", (S.POS["vec_len"],))
+    return sym(ex, p, "O:arg1", (S.POS["vec_mem"], "$base")), sym(ex, p, "O:arg1", ("$layout", "size")), sym(ex, p, "O:arg1", (S.POS["vec_len"],))
 
 
 def _mv_bounds(es, *counts):
@@ -618,7 +629,7 @@ def spec_remove_consume():
             obs.append(_copy_ob(ex, cps[0], "(bvadd %s %s)" % (dst, es), dst, "(bvmul %s (bvsub (bvsub %s %s) n2))" % (es, ln, bvconst(1)),
                                 "remove(index) shifts exactly the len - 1 - index elements behind the removed one down by one element"))
             obs.append(("the block move may overlap (ptr::copy / copy_bytes, not copy_nonoverlapping)", "false" if cps[0][4] else "true"))
-        fin = ex.as_bv(ex.read_cell(p, "O:vecraw", (2,), "usize"))[1]
+        fin = ex.as_bv(ex.read_cell(p, "O:vecraw", (S.POS["vec_len"],), "usize"))[1]
         obs.append(("len ends as len - 1", "(= %s (bvsub %s %s))" % (fin, ln, bvconst(1))))
         return obs
 
@@ -646,7 +657,7 @@ def spec_swap_remove_consume():
             obs.append(("a copy happens only when the removed element is not the last one", "(not (= n2 %s))" % last))
         else:
             obs.append(("no copy only when the removed element is the last one (or elements are zero-sized)", OR("(= n2 %s)" % last, "(= %s %s)" % (es, bvconst(0)))))
-        fin = ex.as_bv(ex.read_cell(p, "O:vecraw", (2,), "usize"))[1]
+        fin = ex.as_bv(ex.read_cell(p, "O:vecraw", (S.POS["vec_len"],), "usize"))[1]
         obs.append(("len ends as len - 1", "(= %s %s)" % (fin, last)))
         return obs
 
@@ -689,7 +700,7 @@ def spec_insert_unchecked(push):
         res, cps, mvs = events(p, "reserve_one"), events(p, "copy"), events(p, "move_into")
         obs = [("room for one more element is reserved exactly once, before anything is moved", "true" if len(res) == 1 and p.events and p.events[0] is res[0] else "false"),
                ("the value is moved in exactly once", "true" if len(mvs) == 1 else "false")]
-        base = ex.as_bv(ex.read_cell(p, "O:arg1", (1, "$base"), "usize"))[1]   # the storage pointer *after* reserve_one
+        base = ex.as_bv(ex.read_cell(p, "O:arg1", (S.POS["vec_mem"], "$base"), "usize"))[1]   # the storage pointer *after* reserve_one
         idx = ln if push else "a2"
         slot = "(bvadd %s (bvmul %s %s))" % (base, es, idx)
         if not push:
@@ -708,7 +719,7 @@ def spec_insert_unchecked(push):
             if not push:
                 snap = mvs[0][3]
                 obs.append(("while the value is moved in (user code may run) len is lowered to index: the shifted tail is hidden", "(= %s %s)" % (ex.as_bv(snap)[1], idx) if snap is not None else "false"))
-        fin = ex.as_bv(ex.read_cell(p, "O:arg1", (2,), "usize"))[1]
+        fin = ex.as_bv(ex.read_cell(p, "O:arg1", (S.POS["vec_len"],), "usize"))[1]
         obs.append(("len ends as len + 1", "(= %s (bvadd %s %s))" % (fin, ln, bvconst(1))))
         if not push:
             obs.append(("returns only for index <= len", "(bvule a2 %s)" % ln))
@@ -729,7 +740,7 @@ def spec_handle_new(kind):
     file_part = {"Pop": "src/ops/pop.rs", "Remove": "src/ops/remove.rs", "SwapRemove": "src/ops/swap_remove.rs", "Drain": "src/ops/drain.rs"}[kind]
 
     def assume(ex, p):
-        ln = sym(ex, p, "O:vecraw", (2,))
+        ln = sym(ex, p, "O:vecraw", (S.POS["vec_len"],))
         if kind == "Pop":
             return [("non-empty vector", "(bvugt %s %s)" % (ln, bvconst(0)))]
         if kind == "Drain":
@@ -737,8 +748,8 @@ def spec_handle_new(kind):
         return [("index < len", "(bvult %s %s)" % ("a2", ln))]
 
     def on_return(ex, p):
-        ln = sym(ex, p, "O:vecraw", (2,))
-        fin = ex.read_cell(p, "O:vecraw", (2,), "usize")[1]
+        ln = sym(ex, p, "O:vecraw", (S.POS["vec_len"],))
+        fin = ex.read_cell(p, "O:vecraw", (S.POS["vec_len"],), "usize")[1]
         if kind == "Pop":
             return [("len is lowered by one at creation", "(= %s (bvsub %s %s))" % (fin, ln, bvconst(1)))]
         for n in ("a2", "a3"):
@@ -778,31 +789,79 @@ def all_specs():
 # the kernels below read handle / chunk fields by position: the field names in declaration order, as they appear in a
 # struct literal somewhere in the MIR dump. If the representation changes, the obligations no longer say what they mean:
 # the kernel is then reported inconclusive (re-anchor the spec) instead of producing verdicts about the wrong fields.
-REPR = {
-    "Drain::drop": ("drain::Drain::<", ["iter", "start", "end", "original_len"]),
-    "Iter::len": ("iter::Iter::<", ["any_vec_ptr", "index", "end", "phantom"]),
-    "Iter::size_hint": ("iter::Iter::<", ["any_vec_ptr", "index", "end", "phantom"]),
-    "Iter::next": ("iter::Iter::<", ["any_vec_ptr", "index", "end", "phantom"]),
-    "Iter::next_back": ("iter::Iter::<", ["any_vec_ptr", "index", "end", "phantom"]),
-    "HeapMem::resize": ("HeapMem {", ["mem", "size", "element_layout"]),
-    "HeapMem::expand": ("HeapMem {", ["mem", "size", "element_layout"]),
+LAYOUT_SRC = {
+    # role prefix: (struct literal marker, {role: field name})
+    "vec": ("AnyVecRaw::<", {"vec_mem": "mem", "vec_len": "len"}),
+    "heap": ("HeapMem {", {"heap_ptr": "mem", "heap_size": "size", "heap_layout": "element_layout"}),
+    "iter": ("iter::Iter::<", {"iter_index": "index", "iter_end": "end"}),
+    "drain": ("drain::Drain::<", {"drain_iter": "iter", "drain_start": "start", "drain_end": "end", "drain_olen": "original_len"}),
 }
+NEEDS = {"Drain::drop": ("drain", "iter"), "Iter::len": ("iter",), "Iter::size_hint": ("iter",), "Iter::next": ("iter",), "Iter::next_back": ("iter",),
+         "HeapMem::resize": ("heap",), "HeapMem::expand": ("heap",), "HeapMem::from_raw_parts": ("heap",),
+         "AnyVecRaw::reserve": ("vec",), "AnyVecRaw::reserve_exact": ("vec",), "AnyVecRaw::shrink_to": ("vec",), "AnyVecRaw::shrink_to_fit": ("vec",), "AnyVecRaw::index_check": ("vec",),
+         "AnyVecRaw::insert_unchecked": ("vec",), "AnyVecRaw::push_unchecked": ("vec",), "Remove::new+consume": ("vec",), "SwapRemove::new+consume": ("vec",),
+         "Pop::new": ("vec",), "Remove::new": ("vec",), "SwapRemove::new": ("vec",), "Drain::new": ("vec",)}
+LAYOUT_PROBLEM = {}
 
 
-def repr_problem(spec, text):
-    if spec.key not in REPR:
-        return None
-    marker, want = REPR[spec.key]
+def struct_fields(text, marker):
     for line in text.splitlines():
         k = line.find("= " + marker)
         if k < 0 or not line.rstrip().endswith("};") or " { " not in line[k:]:
             continue
         body = line[line.index(" { ", k) + 3:line.rindex("}")]
-        got = [f.split(":", 1)[0].strip() for f in S.split_top(body)]
-        if got != want:
-            return "representation changed: fields %s, the kernel specification is anchored to %s" % (got, want)
+        return [f.split(":", 1)[0].strip() for f in S.split_top(body)]
+    return None
+
+
+def heap_roles_by_type(text):
+    """HeapMem's three fields have three different types: the literal in from_raw_parts(handle: NonNull<u8>, layout: Layout,
+    size: usize) tells which field takes which argument even after a rename"""
+    m = re.search(r"fn heap::<impl[^\n]*>::from_raw_parts\(_1: ([^,]+), _2: ([^,]+), _3: ([^)]+)\) -> HeapMem \{(.*?)\n\}", text, flags=re.S)
+    if not m:
         return None
-    return "no struct literal `%s ...` found in the MIR dump: cannot confirm the field layout the specification is anchored to" % marker
+    argrole = {}
+    for i, t in enumerate(m.group(1, 2, 3)):
+        t = t.strip()
+        argrole["_%d" % (i + 1)] = "heap_ptr" if "NonNull" in t or t.startswith("*") else "heap_layout" if "Layout" in t else "heap_size" if t == "usize" else None
+    lit = re.search(r"= HeapMem \{ (.*) \};", m.group(4))
+    if not lit:
+        return None
+    roles = {}
+    for pos, fa in enumerate(S.split_top(lit.group(1))):
+        v = fa.split(":", 1)[1].strip()
+        mm = re.fullmatch(r"(?:copy|move) (_\d)", v)
+        if mm and argrole.get(mm.group(1)):
+            roles[argrole[mm.group(1)]] = pos
+    return roles if len(roles) == 3 else None
+
+
+def set_layout(text):
+    """fills symex.POS from the struct literals of this dump; records per role group what could not be resolved"""
+    LAYOUT_PROBLEM.clear()
+    for grp, (marker, roles) in LAYOUT_SRC.items():
+        got = struct_fields(text, marker)
+        if got is None:
+            LAYOUT_PROBLEM[grp] = "no struct literal `%s ...` in the MIR dump: the field layout the specification refers to cannot be confirmed" % marker
+            continue
+        missing = [n for n in roles.values() if n not in got]
+        if missing and grp == "heap":
+            byt = heap_roles_by_type(text)
+            if byt:
+                S.POS.update(byt)
+                continue
+        if missing:
+            LAYOUT_PROBLEM[grp] = "private field(s) %s not found (fields now: %s): the specification is anchored to these names" % (missing, got)
+            continue
+        for role, name in roles.items():
+            S.POS[role] = got.index(name)
+
+
+def repr_problem(spec, text):
+    for grp in NEEDS.get(spec.key, ()):
+        if grp in LAYOUT_PROBLEM:
+            return LAYOUT_PROBLEM[grp]
+    return None
 
 
 # ------------------------------------------------------------------ running
@@ -817,6 +876,7 @@ def run_spec(spec, fns, mode, solver, cross=None):
         return rep
     ex = S.Exec(fn)
     ex.vec_root = spec.vec_root
+    ex.fns = fns
     S.ELEM_PTRS.clear()
     try:
         if spec.prelude is None:
@@ -828,6 +888,7 @@ def run_spec(spec, fns, mode, solver, cross=None):
                 return rep
             pex = S.Exec(pfn, arg_prefix="n")
             pex.vec_root = spec.vec_root
+            pex.fns = fns
             paths = []
             for q in pex.run():
                 if q.outcome is None or q.outcome[0] != "return":
@@ -850,6 +911,7 @@ def run_spec(spec, fns, mode, solver, cross=None):
                         init.links[(r, pa)] = tgt
                 ex2 = S.Exec(fn)
                 ex2.vec_root = spec.vec_root
+                ex2.fns = fns
                 ex2.counter = pex.counter + 1000
                 paths += ex2.run(init=init)
                 ex.decls = q.decls
@@ -944,6 +1006,7 @@ def part(prop):
                 rep["inconclusive"] += 1
                 continue
             fns = M.parse(text)
+            set_layout(text)
             for spec in specs:
                 rp = repr_problem(spec, text)
                 if rp:
